@@ -177,9 +177,14 @@ def check(c):
         if cell is not None:
             shift = np.round(np.random.default_rng(0).integers(-2, 3, size=X.shape)) * np.array(cell)
             D2 = dist_sq(X + shift, cell)
-            u = np.unique(D[np.isfinite(D)])
-            gaps = np.min(np.diff(u)) if len(u) > 1 else 1.0
-            if np.allclose(D2, D, rtol=1e-9, atol=1e-9) and gaps > 1e-6:     # only when rounding cannot reorder distances
+            # only when neither exact ties nor rounding can reorder the distances seen from any point ("tied within rounding" is excluded)
+            rows = np.sort(np.where(np.isfinite(D), D, np.nan), axis=1)[:, :-1]
+            gaps = np.nanmin(np.diff(rows, axis=1)) if rows.shape[1] > 1 else 1.0
+            cuts_ok = True
+            if mode == 'qs':
+                cs = (c['cuts'] * scale2)[:, None]
+                cuts_ok = np.nanmin(np.abs(rows - cs)) > 1e-6
+            if np.allclose(D2, D, rtol=1e-9, atol=1e-9) and gaps > 1e-6 and cuts_ok:
                 m3 = fit_model(c, X + shift, w)
                 expect(np.array_equal(m3.labels_, labels), 'post:partition-invariant-under-periodic-images')
     return out
